@@ -227,6 +227,11 @@ def single_edits(tokens, vocab, r, limit=None):
         out.append(("dup", i, tokens[:i + 1] + tokens[i:]))
         if i + 1 < n:
             out.append(("swap", i, tokens[:i] + [tokens[i + 1], tokens[i]] + tokens[i + 2:]))
+        t0 = tokens[i]
+        if len(t0) > 3 and (t0[:1] == b":" or t0.isalpha()):
+            # a tag or a name cut short (`:address` for `:addresses`, `fileint`): a prefix of a legal word is not that word
+            for cut in (t0[:-1], t0[:max(2, len(t0) // 2)]):
+                out.append(("trunc", i, tokens[:i] + [cut] + tokens[i + 1:]))
         if tokens[i].swapcase() != tokens[i]:
             # letter case: immaterial in identifiers and tags, data in strings (a value from a closed list stops being one)
             out.append(("case", i, tokens[:i] + [tokens[i].swapcase()] + tokens[i + 1:]))
